@@ -34,6 +34,13 @@ theorem gen_meanUpper_eq (u : ℝ)  : gen_meanUpper u = u := by
   all_goals first | rfl | ring | (norm_num; ring)
 
 /-- `utils.py:_var` -/
+noncomputable def gen_varSens (l u : ℝ) (n : ℕ) : ℝ := ((((u - l) / (n : ℝ)) ^ 2) * ((n : ℝ) - (1 : ℝ)))
+theorem gen_varSens_eq (l u : ℝ) (n : ℕ)  : gen_varSens l u n = Tools.varSens n l u := by
+  unfold gen_varSens
+  simp only [Tools.varSens]
+  all_goals first | rfl | ring | (norm_num; ring)
+
+/-- `utils.py:_var` -/
 noncomputable def gen_varLower  : ℝ := (0 : ℝ)
 theorem gen_varLower_eq   : gen_varLower  = 0 := by
   unfold gen_varLower
@@ -68,5 +75,23 @@ noncomputable def gen_cellEps (ε : ℝ) (m : ℕ) : ℝ := (ε / (m : ℝ))
 theorem gen_cellEps_eq (ε : ℝ) (m : ℕ)  : gen_cellEps ε m = ε / (m : ℝ) := by
   unfold gen_cellEps
   all_goals first | rfl | ring | (norm_num; ring)
+
+
+/-- the mechanism configured by `_mean` / `_var` / `_sum` as coded (read from the AST) IS the call of the model's plan -/
+theorem meanPlan_call (n : ℕ) (ε l u : ℝ) :
+    Tools.meanPlan n ε l u = Tools.single ⟨"LaplaceTruncated", ε, 0, gen_meanSens l u n, gen_meanLower l, gen_meanUpper u, .osCsprng⟩
+      (fun D => Tools.mean (D.map (Tools.clip l u))) := by
+  simp only [Tools.meanPlan, gen_meanSens, gen_meanLower, gen_meanUpper]
+
+theorem varPlan_call (n : ℕ) (ε l u : ℝ) :
+    Tools.varPlan n ε l u = Tools.single ⟨"LaplaceBoundedDomain", ε, 0, gen_varSens l u n, gen_varLower, gen_varUpper l u, .osCsprng⟩
+      (fun D => Tools.var (D.map (Tools.clip l u))) := by
+  rw [gen_varSens_eq, gen_varUpper_eq, gen_varLower_eq]
+  rfl
+
+theorem sumPlan_call (n : ℕ) (ε l u : ℝ) :
+    Tools.sumPlan n ε l u = Tools.single ⟨"LaplaceTruncated", ε, 0, gen_sumSens l u, gen_sumLower l n, gen_sumUpper u n, .osCsprng⟩
+      (fun D => Tools.sum (D.map (Tools.clip l u))) := by
+  simp only [Tools.sumPlan, gen_sumSens, gen_sumLower, gen_sumUpper]
 
 end DPL.Gen.C07
